@@ -18,6 +18,8 @@
 (*   baseline  baseline is unset or <= the sample's RTT, equals an RTT seen since the   (C15)    *)
 (*             last reset, resets recur within the bound                                        *)
 (*   notify    a changed estimate was notified to every listener, last value = estimate (C16)    *)
+(*             - also for the settable limit (Set records: the estimate is the value set) and,  *)
+(*             like the fixed limit, no sample moves it                                         *)
 (*   metrics   one RTT and one in-flight sample, a drop increment iff drop              (C20)    *)
 EXTENDS Integers, Sequences, FiniteSets, TLC, Json, IOUtils
 
@@ -67,7 +69,8 @@ Check(c, s, i, o) ==
        THEN <<"baseline", "baseline above the sample's RTT">>
   ELSE IF Bare(c) /\ c.algo \in {"vegas", "gradient"} /\ o.baseset /\ o.base \notin (IF o.probe /\ c.algo = "gradient" THEN {} ELSE IF o.probe THEN {rtt} ELSE s.seen \cup {rtt})
        THEN <<"baseline", "baseline is not an RTT observed since the last reset">>
-  ELSE IF \E j \in ids : e # prev /\ Len(Notes(j)) = 0 THEN <<"notify", "the estimate changed and a registered listener was not called">>
+  ELSE IF c.algo \in {"settable", "fixed"} /\ e # prev THEN <<"notify", "a sample moved a limit that only an explicit set may move">>
+  ELSE IF \E j \in ids : e # prev /\ c.algo # "fixed" /\ Len(Notes(j)) = 0 THEN <<"notify", "the estimate changed and a registered listener was not called">>
   ELSE IF \E j \in ids : Len(Notes(j)) > 0 /\ Notes(j)[Len(Notes(j))] # e THEN <<"notify", "last notified value differs from EstimatedLimit">>
   ELSE IF c.wrap # "windowed" /\ (o.metrics.rtt # 1 \/ o.metrics.inflight # 1 \/ o.metrics.dropped # (IF i.drop THEN 1 ELSE 0))
        THEN <<"metrics", "a processed sample must emit one RTT, one in-flight and a drop increment iff drop">>
@@ -75,6 +78,18 @@ Check(c, s, i, o) ==
 
 (* Vegas decides per sample from the current estimate: a sample is not a probe only while the samples since the last   *)
 (* reset are fewer than jitter (< 1) x multiplier x estimate, estimate < reported integer + 1                          *)
+(* an explicit set (settable limit, bare or behind a wrapper): the estimate is the value set; the notification rules *)
+(* are those of a sample                                                                                            *)
+CheckSet(c, s, v, o) ==
+  LET ids == {j \in 1..s.listeners : TRUE}
+      Notes(j) == IF ToString(j) \in DOMAIN o.notes THEN o.notes[ToString(j)] ELSE <<>>
+  IN
+  IF o.panic THEN <<"bounds", "SetLimit or EstimatedLimit panicked">>
+  ELSE IF o.est # v THEN <<"notify", "after an explicit set the reported estimate is not the value set">>
+  ELSE IF \E j \in ids : o.est # s.est /\ Len(Notes(j)) = 0 THEN <<"notify", "an explicit set changed the estimate and a registered listener was not called">>
+  ELSE IF \E j \in ids : Len(Notes(j)) > 0 /\ Notes(j)[Len(Notes(j))] # o.est THEN <<"notify", "last notified value differs from EstimatedLimit">>
+  ELSE <<>>
+
 ProbeBound(c, s) == IF c.probemax < 0 THEN c.inc * (s.est + 1) - 1 ELSE c.probemax
 
 After(c, s, i, o) ==
@@ -122,6 +137,10 @@ Step ==
                                                    "two concurrent samples: the estimate is the result of neither serial order", [ab |-> e.ab, ba |-> e.ba])
      ELSE IF ~ok THEN UNCHANGED <<ok, cfg, st>>
      ELSE IF e.ev = "Register" THEN st' = [st EXCEPT !.listeners = e.listeners] /\ UNCHANGED <<ok, cfg>>
+     ELSE IF e.ev = "Set"
+     THEN LET r == CheckSet(cfg, st, e.v, e.obs) IN
+          IF r # <<>> THEN ok' = FALSE /\ UNCHANGED <<cfg, st>> /\ Rej(e, r[1], r[2], [prev |-> st.est, set |-> e.v])
+          ELSE st' = [st EXCEPT !.est = e.obs.est] /\ UNCHANGED <<ok, cfg>>
      ELSE IF e.ev = "RunEnd"
      THEN /\ UNCHANGED <<cfg, st>>
           /\ IF e.mode = "droprun" /\ e.est > cfg.floor
